@@ -124,9 +124,13 @@ def real_runs(rep, t, r):
     subprocess.run(['pkill', '-9', '-f', 'par_real.py'])
     results = json.load(open(outf)) if os.path.exists(outf) else []
     by = {}
-    for sp, res in zip(specs, results + [None] * (len(specs) - len(results))):
-        if res is None:
-            res = dict(delivered=[], applied=[], terminated=False, ev=[])
+    # a run that did not finish within the harness's own time budget is INCONCLUSIVE (a loaded machine is not a deadlock;
+    # deadlocks are decided deterministically by the cooperative scheduler above), never a violation
+    inconclusive = len(specs) - len(results)
+    rep.notes['real_multiprocessing_runs_inconclusive'] = inconclusive
+    if specs and not results:
+        raise tlc.MachineryError('no real multiprocessing run finished within %d s' % (60 + 20 * k))
+    for sp, res in zip(specs, results):
         sel = [i for i in range(1, sp['R'] + 1) if (sp['pat'] == 'all' or (sp['pat'] == 'odd' and i % 2) or (sp['pat'] == 'late' and i == sp['R']))]
         by.setdefault((sp['R'], sp['N'], tuple(sel)), []).append((sp, dict(ev=res.get('ev', []), feeds=False,
                                                                      fin=dict(delivered=res['delivered'], applied=res['applied'], terminated=res['terminated']))))
